@@ -39,17 +39,33 @@ def replay_bands(arg):
     # time 1: the sequence; time 2: the reversed sequence (a second, different multiset position-wise).  The prediction
     # frame lists the time points in ascending order or -- every other case -- the later time point first (frames of two
     # sampling runs concatenated): the band at a time point is made of the samples AT that time point either way
+    # the two time points: (1, 2) or -- every third case -- late in a long study, (100000, 100000.5): time points are told apart
+    # exactly, whatever their magnitude
+    T1, T2 = ((1.0, 2.0), (1.0, 2.0), (100000.0, 100000.5))[(int(digest(rec), 16) // 24) % 3]
+    if T1 > 1.0:
+        feats.append('large_times_close_together')
+        cnt['feat_large_times_close_together'] = 1
     rows1, rows2 = [], []
     for k, c in enumerate(v):
-        rows1.append({'ID': k + 1, 'Time': 1.0, 'Observable': 'Zeta', 'Value': val(c), 'Dose': np.nan, 'Duration': np.nan})
+        rows1.append({'ID': k + 1, 'Time': T1, 'Observable': 'Zeta', 'Value': val(c), 'Dose': np.nan, 'Duration': np.nan})
     for k, c in enumerate(reversed(v)):
-        rows2.append({'ID': k + 1, 'Time': 2.0, 'Observable': 'Zeta', 'Value': val(c) + 0.25, 'Dose': np.nan, 'Duration': np.nan})
+        rows2.append({'ID': k + 1, 'Time': T2, 'Observable': 'Zeta', 'Value': val(c) + 0.25, 'Dose': np.nan, 'Duration': np.nan})
     later_first = int(digest(rec), 16) % 2 == 1
     if later_first:
         feats.append('times_not_ascending')
         cnt['feat_times_not_ascending'] = 1
     rows = (rows2 + rows1) if later_first else (rows1 + rows2)
-    rows.append({'ID': 1, 'Time': 1.0, 'Observable': 'Alpha', 'Value': 99.0, 'Dose': np.nan, 'Duration': np.nan})
+    # shape of the caller's frame: two observables, rows grouped by time (a second observable's row at the end); ONE observable
+    # with the rows sample-major (the frames of the individual trajectories concatenated: times 1, 2, 1, 2, ...); one
+    # observable, grouped by time.  In the last two every row belongs to the plotted observable (nothing is filtered out).
+    layout = (int(digest(rec), 16) // 8) % 3
+    cnt['frame_layout_%d' % layout] = 1
+    if layout == 1:
+        a_, b_ = (rows2, rows1) if later_first else (rows1, rows2)
+        rows = [r for pair in zip(a_, b_) for r in pair]
+        feats.append('single_observable_sample_major')
+    if layout == 0:
+        rows.append({'ID': 1, 'Time': T1, 'Observable': 'Alpha', 'Value': 99.0, 'Dose': np.nan, 'Duration': np.nan})
     data = pd.DataFrame(rows)
     before = data.copy(deep=True)
     probs = [Fraction(b['num'], b['den']) for b in rec['bands']]
@@ -75,10 +91,10 @@ def replay_bands(arg):
             p = Fraction(t.text.split(' ')[0]).limit_denominator(1000)
             x = np.asarray(t.x, dtype=float)
             y = np.asarray(t.y, dtype=float)
-            if len(x) != 4 or sorted(x[:2]) != [1.0, 2.0] or list(x[2:]) != list(x[:2])[::-1]:
+            if len(x) != 4 or sorted(x[:2]) != [T1, T2] or list(x[2:]) != list(x[:2])[::-1]:
                 fail('Bands', 'polygon_times', dict(cls=cls, x=list(x)))
                 continue
-            i1 = list(x[:2]).index(1.0)                        # the polygon runs through the times and back
+            i1 = list(x[:2]).index(T1)                         # the polygon runs through the times and back
             limits[p] = dict(upper=y[i1], lower=y[3 - i1], upper2=y[1 - i1], lower2=y[2 + i1])
         samples = [val(c) for c in v]
         for p_, lim in limits.items():
@@ -130,14 +146,18 @@ def replay_routing(arg):
     if not rec['ids']:
         cnt['no_row_of_chosen_observable'] = 1
         return fails, cnt
+    # every other case: the reading depends on the abstract value only, so that two rows the specification lists twice ARE
+    # identical rows (replicate measurements; a table is a sequence of rows, every one of them is drawn)
+    jit = 0.0 if int(digest(rec), 16) % 2 else 0.01
+    cnt['replicate_rows_identical' if jit == 0.0 else 'row_specific_readings'] = 1
     frame = pd.DataFrame([{'Subject': r['id'], 'T': 0.5 * r['t'], 'Obs': (np.nan if r['obs'] == 'none' else r['obs']),
-                           'Val': 1.0 + r['v'] + 0.01 * k, 'Dose': (np.nan if r['dose'] == 0 else 2.0 * r['dose']),
-                           'Duration': (np.nan if r['dur'] == 0 else 0.1), 'Note': 'x%d' % k} for k, r in enumerate(rows)])
+                           'Val': 1.0 + r['v'] + jit * k, 'Dose': (np.nan if r['dose'] == 0 else 2.0 * r['dose']),
+                           'Duration': (np.nan if r['dur'] == 0 else 0.1), 'Note': ('x%d' % k if jit else 'x')} for k, r in enumerate(rows)])
     before = frame.copy(deep=True)
     kw = dict(id_key='Subject', time_key='T', obs_key='Obs', value_key='Val')
     exp_traces = []
     for i in rec['ids']:
-        pts = [(0.5 * r['t'], 1.0 + r['v'] + 0.01 * k) for k, r in enumerate(rows) if r['id'] == i and r['obs'] == 'A']
+        pts = [(0.5 * r['t'], 1.0 + r['v'] + jit * k) for k, r in enumerate(rows) if r['id'] == i and r['obs'] == 'A']
         exp_traces.append((i, pts))
     exp_doses = {i: [(0.5 * r['t'], 2.0 * r['dose']) for r in rows if r['id'] == i and r['dose'] > 0] for i in rec['ids']}
     for cls in ('PDTimeSeriesPlot', 'PDPredictivePlot', 'PKTimeSeriesPlot', 'PKPredictivePlot'):
@@ -168,6 +188,23 @@ def replay_routing(arg):
             expd = [exp_doses[i] for i in rec['ids']]
             if gotd != expd:
                 fail('RoutingOK', 'dose_traces', dict(cls=cls, got=gotd, expected=expd))
+    # ---- add_simulation (Plots!SimTrace): one line through every row of the frame, in frame order -----------------------
+    if 'sim' in rec:
+        try:
+            with warnings.catch_warnings():
+                warnings.simplefilter('ignore')
+                fig = chi.plots.PDTimeSeriesPlot()
+                fig.add_data(frame, observable='A', **kw)
+                n0 = len(fig._fig.data)
+                fig.add_simulation(frame, time_key='T', value_key='Val')
+            new = list(fig._fig.data)[n0:]
+            exp_line = [(0.5 * t_, 1.0 + v_ + jit * k) for k, (t_, v_) in enumerate(rec['sim'])]
+            got_line = [list(zip(np.asarray(t.x, dtype=float).tolist(), np.asarray(t.y, dtype=float).tolist())) for t in new]
+            cnt['evaluations'] = cnt.get('evaluations', 0) + 1
+            if got_line != [exp_line] or (new and new[0].mode != 'lines'):
+                fail('RoutingOK', 'simulation_line', dict(got=got_line, expected=[exp_line]))
+        except Exception as e:
+            fail('Evaluable', type(e).__name__, dict(cls='PDTimeSeriesPlot.add_simulation', error=repr(e)))
     if not frame.equals(before):
         fail('NoInputWrite', 'data_frame_modified', None)
     return fails, cnt
